@@ -97,6 +97,9 @@ struct Node {
     sim: Mutex<Sim>,
     pays: Mutex<Vec<Value>>,
     requests: Mutex<Vec<(String, Value)>>,
+    /// scripted mode: requests (other than getinfo) wait until the script answers them
+    deferred: bool,
+    arrived: std::sync::Condvar,
 }
 
 fn serve(listener: UnixListener, node: Arc<Node>, stop: Arc<AtomicBool>) {
@@ -128,7 +131,30 @@ fn serve_conn(mut stream: UnixStream, node: Arc<Node>) {
             let method = req["method"].as_str().unwrap_or("").to_string();
             let params = req["params"].clone();
             node.requests.lock().unwrap().push((method.clone(), params.clone()));
-            let result: Result<Value, (i32, String)> = if method == "pay" {
+            let to_err = |e: crate::sim::SimErr| match e {
+                crate::sim::SimErr::Rpc { code, message } => (code, message),
+                crate::sim::SimErr::Transport(m) => (-1, m),
+            };
+            let result: Result<Value, (i32, String)> = if node.deferred && method != "getinfo" {
+                match Method::from_name(&method) {
+                    Some(m) => {
+                        let rx = {
+                            let mut s = node.sim.lock().unwrap();
+                            let r = s.register(m, params.clone());
+                            node.arrived.notify_all();
+                            r
+                        };
+                        match rx {
+                            Ok(rx) => match rx.blocking_recv() {
+                                Ok(r) => r.map_err(to_err),
+                                Err(_) => return, // node "crashed": drop the connection
+                            },
+                            Err(immediate) => immediate.map_err(to_err),
+                        }
+                    }
+                    None => Err((-32601, format!("Unknown command '{}'", method))),
+                }
+            } else if method == "pay" {
                 node.pays.lock().unwrap().push(params.clone());
                 let bolt11 = params["bolt11"].as_str().unwrap_or("");
                 let hash = bolt11
@@ -181,22 +207,36 @@ static DIR_COUNTER: AtomicU64 = AtomicU64::new(0);
 
 impl Proc {
     pub fn start(log_trace: bool) -> Result<Proc, String> {
+        Self::start_with(log_trace, None)
+    }
+
+    /// `scripted`: Some(sim) = deferred mode, the caller answers requests through the sim.
+    pub fn start_with(log_trace: bool, scripted: Option<Sim>) -> Result<Proc, String> {
         let dir = PathBuf::from(format!("/verif/.work/e2e-{}-{}", std::process::id(), DIR_COUNTER.fetch_add(1, Ordering::Relaxed)));
         let _ = std::fs::remove_dir_all(&dir);
         std::fs::create_dir_all(&dir).map_err(|e| e.to_string())?;
         let sock = dir.join("lightning-rpc");
         let listener = UnixListener::bind(&sock).map_err(|e| format!("bind {:?}: {}", sock, e))?;
-        let mut sim = Sim::new(common::local_pubkey().to_string());
-        sim.immediate = true;
-        sim.height = 800_000;
-        for tag in 1..=4u8 {
-            let pre = common::preimage(tag);
-            sim.preimages.insert(common::hash_hex(&pre), hex::encode(pre));
-        }
+        let deferred = scripted.is_some();
+        let sim = match scripted {
+            Some(s) => s,
+            None => {
+                let mut sim = Sim::new(common::local_pubkey().to_string());
+                sim.immediate = true;
+                sim.height = 800_000;
+                for tag in 1..=4u8 {
+                    let pre = common::preimage(tag);
+                    sim.preimages.insert(common::hash_hex(&pre), hex::encode(pre));
+                }
+                sim
+            }
+        };
         let node = Arc::new(Node {
             sim: Mutex::new(sim),
             pays: Mutex::new(Vec::new()),
             requests: Mutex::new(Vec::new()),
+            deferred,
+            arrived: std::sync::Condvar::new(),
         });
         let stop = Arc::new(AtomicBool::new(false));
         {
@@ -789,4 +829,336 @@ pub fn replay(options: &Value) -> Result<Vec<Violation>, String> {
     }
     let probe = cfg.explicit.contains(&"trampoline-mpp-timeout");
     run_config(&cfg, probe).map(|r| r.0)
+}
+
+
+// ------------------------------------------------------------------ conformance replay of engine-W histories
+
+/// Replays explored engine-W histories of a sequential scenario against the real binary: same events, in the
+/// same order, through real pipes and the real socket; the requests the binary sends and the responses it gives
+/// must equal the in-process observation log (wall-clock stamps normalised).
+pub fn conformance(thorough: bool, threads: usize, name: &'static str) -> JobResult {
+    use crate::engine_w::{normalise_stamps, WCfg, W};
+    use crate::explore::Model;
+    let mut result = JobResult {
+        name: name.to_string(),
+        engine: "E".into(),
+        level_completed: 0,
+        exhaustive: true,
+        ..Default::default()
+    };
+    if !Path::new(&binary()).exists() {
+        result.error = Some(format!("{} not built", binary()));
+        return result;
+    }
+    let scenarios: Vec<WCfg> = vec![
+        {
+            let mut c = crate::scen::s_life("S-life/1htlc", false, false, false);
+            c.mpp_timeout_ms = 60_000;
+            c
+        },
+        crate::scen::s_life("S-life/2htlc", true, false, false),
+    ];
+    let replayable = |l: &str| {
+        !(l.starts_with("Advance") || l.starts_with("Crash") || l.starts_with("Stall") || l.starts_with("Select") || l.starts_with("Block") || l.starts_with("Height") || l.contains(",transport)") || l.contains("transport-error"))
+    };
+    // candidate histories: the default path and every single replayable deviation along it (and, thorough, pairs)
+    let mut jobs: Vec<(std::sync::Arc<WCfg>, Vec<String>)> = Vec::new();
+    for c in scenarios {
+        let cfg = crate::scen::with_props(c, &[]);
+        let mut hists: Vec<Vec<String>> = vec![vec![]];
+        let depth = if thorough { 2 } else { 1 };
+        let mut frontier: Vec<Vec<String>> = vec![vec![]];
+        for _ in 0..depth {
+            let mut next = Vec::new();
+            for prefix in &frontier {
+                // walk the default continuation of `prefix`, branching once at every point
+                let mut m = match crate::explore::replay_labels::<W>(&cfg, prefix, false) {
+                    Ok(m) => m,
+                    Err(_) => continue,
+                };
+                let mut path = prefix.clone();
+                loop {
+                    let en = m.enabled();
+                    if en.is_empty() || en[0].cost > 0 {
+                        break;
+                    }
+                    for alt in en.iter().skip(1) {
+                        if replayable(&alt.label) {
+                            let mut h = path.clone();
+                            h.push(alt.label.clone());
+                            next.push(h);
+                        }
+                    }
+                    if !replayable(&en[0].label) {
+                        break;
+                    }
+                    path.push(en[0].label.clone());
+                    m.apply(0);
+                }
+            }
+            hists.extend(next.iter().cloned());
+            frontier = next;
+        }
+        for h in hists {
+            jobs.push((cfg.clone(), h));
+        }
+    }
+    let total = jobs.len();
+    let queue: Mutex<Vec<(std::sync::Arc<WCfg>, Vec<String>)>> = Mutex::new(jobs);
+    let found: Mutex<Vec<FoundAny>> = Mutex::new(Vec::new());
+    let errors: Mutex<Vec<String>> = Mutex::new(Vec::new());
+    let validated = AtomicU64::new(0);
+    let skipped = AtomicU64::new(0);
+    let samples: Mutex<Vec<Value>> = Mutex::new(Vec::new());
+    std::thread::scope(|s| {
+        for _ in 0..threads.max(1).min(12) {
+            s.spawn(|| loop {
+                let job = queue.lock().unwrap().pop();
+                let (cfg, prefix) = match job {
+                    Some(j) => j,
+                    None => return,
+                };
+                // in-process reference run
+                let w: W = match crate::explore::replay_labels::<W>(&cfg, &prefix, true) {
+                    Ok(w) => w,
+                    Err(e) => {
+                        errors.lock().unwrap().push(e);
+                        continue;
+                    }
+                };
+                let history = w.history_labels();
+                if !history.iter().all(|l| replayable(l)) {
+                    skipped.fetch_add(1, Ordering::Relaxed);
+                    continue;
+                }
+                let expected = w.observations();
+                match replay_on_binary(&cfg, &history) {
+                    Ok(actual) => {
+                        let exp_req: Vec<String> = expected.iter().filter(|l| l.starts_with("req ")).map(|l| normalise_long_numbers(l)).collect();
+                        let act_req: Vec<String> = actual.iter().filter(|l| l.starts_with("req ")).map(|l| normalise_long_numbers(l)).collect();
+                        let mut exp_resp: Vec<String> = expected.iter().filter(|l| l.starts_with("resp ")).cloned().collect();
+                        let mut act_resp: Vec<String> = actual.iter().filter(|l| l.starts_with("resp ")).cloned().collect();
+                        exp_resp.sort();
+                        act_resp.sort();
+                        if exp_req != act_req || exp_resp != act_resp {
+                            let i = exp_req.iter().zip(act_req.iter()).position(|(a, b)| a != b);
+                            found.lock().unwrap().push(FoundAny {
+                                violation: Violation {
+                                    property: "CONFORMANCE",
+                                    clause: "binary-equals-in-process",
+                                    shape: "the real binary's requests/responses differ from the in-process run of the same history".into(),
+                                    detail: format!(
+                                        "history {:?}; first differing request {:?}: in-process {:?} binary {:?}; responses in-process {:?} binary {:?}",
+                                        history,
+                                        i,
+                                        i.and_then(|i| exp_req.get(i)).map(|s| s.chars().take(160).collect::<String>()),
+                                        i.and_then(|i| act_req.get(i)).map(|s| s.chars().take(160).collect::<String>()),
+                                        exp_resp,
+                                        act_resp
+                                    ),
+                                },
+                                cost: 0,
+                                replay: json!({"engine":"E","scenario":name,"history":history}),
+                            });
+                        } else {
+                            let n = validated.fetch_add(1, Ordering::Relaxed);
+                            if n < 2 {
+                                samples.lock().unwrap().push(json!({"scenario": cfg.name, "history": history, "binary_observations": actual.iter().map(|l| l.chars().take(140).collect::<String>()).collect::<Vec<_>>()}));
+                            }
+                        }
+                    }
+                    Err(e) => errors.lock().unwrap().push(format!("{:?}: {}", history, e)),
+                }
+                let _ = normalise_stamps;
+            });
+        }
+    });
+    let errs = errors.into_inner().unwrap();
+    if !errs.is_empty() {
+        result.error = Some(errs.into_iter().take(3).collect::<Vec<_>>().join(" ;; "));
+    }
+    // a disagreement between the binary and the in-process run is a problem of the machinery's binding (or of
+    // the glue code outside the explored seam); it is never a verdict on the property being checked
+    let mism = found.into_inner().unwrap();
+    if let Some(f) = mism.first() {
+        result.error = Some(format!("conformance: {} :: {}", f.violation.shape, f.violation.detail.chars().take(900).collect::<String>()));
+    }
+    result.samples = samples.into_inner().unwrap();
+    result.extra.insert("histories_considered".into(), json!(total));
+    result.extra.insert("validated_against_binary".into(), json!(validated.load(Ordering::Relaxed)));
+    result.extra.insert("skipped_not_replayable".into(), json!(skipped.load(Ordering::Relaxed)));
+    result.evaluations = validated.load(Ordering::Relaxed);
+    result.nontrivial = validated.load(Ordering::Relaxed).saturating_sub(2);
+    result.rule = Some("conformance: the default history and every history with one (thorough: two) replayable deviation(s) of S-life/1htlc and S-life/2htlc (reordered deliveries, pay endings, part failures, rejected / applied-but-failed writes; not time, crashes, stalls or transport faults) are replayed against the real trampoline binary over real pipes and a real unix socket with the node's answers scripted in the same order; the binary's RPC requests (method, arguments) and hook responses must equal the in-process log".into());
+    result
+}
+
+fn normalise_long_numbers(s: &str) -> String {
+    let mut out = String::new();
+    let mut run = String::new();
+    for c in s.chars().chain(std::iter::once(' ')) {
+        if c.is_ascii_digit() {
+            run.push(c);
+        } else {
+            if run.len() >= 10 {
+                out.push_str("<n>");
+            } else {
+                out.push_str(&run);
+            }
+            run.clear();
+            out.push(c);
+        }
+    }
+    out.pop();
+    out
+}
+
+/// Drive the real binary through `history`; returns its observation log in the format of W::observations().
+fn replay_on_binary(cfg: &crate::engine_w::WCfg, history: &[String]) -> Result<Vec<String>, String> {
+    use crate::engine_w::{normalise_stamps, resp_string};
+    let mut sim = Sim::new(common::local_pubkey().to_string());
+    sim.height = cfg.start_height;
+    for (h, p) in &cfg.preimages {
+        sim.preimages.insert(h.clone(), p.clone());
+    }
+    let mut p = Proc::start_with(false, Some(sim))?;
+    let mut opts = serde_json::Map::new();
+    opts.insert("trampoline-cltv-delta".into(), json!(cfg.safety_delta));
+    opts.insert("trampoline-policy-cltv-delta".into(), json!(cfg.policy_delta));
+    opts.insert("trampoline-policy-fee-base".into(), json!(cfg.fee_base));
+    opts.insert("trampoline-policy-fee-per-satoshi".into(), json!(cfg.fee_ppm));
+    opts.insert("trampoline-mpp-timeout".into(), json!(cfg.mpp_timeout_ms / 1000));
+    opts.insert("trampoline-payment-timeout".into(), json!(cfg.payment_timeout_s));
+    if !p.handshake(&Value::Object(opts))? {
+        return Err("binary refused to start".into());
+    }
+    let mut ids: Vec<(Value, String)> = Vec::new();
+    let mut obs: Vec<String> = Vec::new();
+    let wait_pending = |p: &Proc, label: &str| -> Result<u64, String> {
+        let deadline = Instant::now() + Duration::from_secs(10);
+        let mut g = p.node.sim.lock().unwrap();
+        loop {
+            if let Some(x) = g.pending.iter().find(|x| x.label == label) {
+                return Ok(x.id);
+            }
+            let left = deadline.checked_duration_since(Instant::now()).ok_or_else(|| format!("request {} never arrived; pending {:?}", label, g.pending.iter().map(|x| x.label.clone()).collect::<Vec<_>>()))?;
+            g = p.node.arrived.wait_timeout(g, left.min(Duration::from_millis(50))).unwrap().0;
+        }
+    };
+    for l in history {
+        if let Some(name) = l.strip_prefix("Deliver(").and_then(|x| x.strip_suffix(')')) {
+            let t = cfg.templates.iter().find(|t| t.spec.name == name).ok_or("unknown template")?;
+            let height = p.node.sim.lock().unwrap().height;
+            p.next_id += 1;
+            let id = json!(p.next_id);
+            let req = json!({"jsonrpc":"2.0","id":id,"method":"htlc_accepted","params": t.spec.request_json(height)});
+            p.send(&req);
+            ids.push((id, name.to_string()));
+        } else if let Some(label) = l.strip_prefix("Answer(").and_then(|x| x.strip_suffix(')')) {
+            let id = wait_pending(&p, label)?;
+            let _ = p.node.sim.lock().unwrap().answer_ok(id);
+        } else if let Some(rest) = l.strip_prefix("Fault(").and_then(|x| x.strip_suffix(')')) {
+            let (label, kind) = rest.rsplit_once(',').ok_or("bad fault label")?;
+            let id = wait_pending(&p, label)?;
+            let applied = kind == "applied-but-error";
+            // in-process the applied-but-error flavour is a transport error; over the socket it is an error object
+            let _ = p.node.sim.lock().unwrap().answer_fault(id, applied, crate::sim::SimErr::rpc(-32603, "datastore: database error"));
+        } else if l.starts_with("PaySpawnPart(") || l.starts_with("PayEnd(") || l.starts_with("Part(") {
+            // the pay request must have arrived before the node acts on it
+            let deadline = Instant::now() + Duration::from_secs(10);
+            loop {
+                let mut g = p.node.sim.lock().unwrap();
+                let done = apply_node_event(&mut g, l, cfg)?;
+                drop(g);
+                if done {
+                    break;
+                }
+                if Instant::now() > deadline {
+                    return Err(format!("node event {} never became applicable", l));
+                }
+                std::thread::sleep(Duration::from_millis(5));
+            }
+        } else {
+            return Err(format!("event {} is not replayable", l));
+        }
+        // give the plugin the time to react: wait until its reaction stops changing
+        let mut last = (0usize, 0usize);
+        let mut stable = 0;
+        let t0 = Instant::now();
+        while stable < 3 && t0.elapsed() < Duration::from_secs(5) {
+            std::thread::sleep(Duration::from_millis(8));
+            let n_req = p.node.sim.lock().unwrap().new_requests.len();
+            while let Ok(v) = p.rx.try_recv() {
+                if let Some((_, name)) = ids.iter().find(|(id, _)| v.get("id") == Some(id)) {
+                    let r = &v["result"];
+                    let rs = match r["result"].as_str() {
+                        Some("continue") => match r.get("payload").and_then(|x| x.as_str()) {
+                            Some(pl) => format!("continue:{}", pl),
+                            None => "continue".to_string(),
+                        },
+                        Some("fail") => format!("fail:{}", r["failure_message"].as_str().unwrap_or("")),
+                        Some("resolve") => format!("resolve:{}", r["payment_key"].as_str().unwrap_or("")),
+                        _ => format!("?{}", v),
+                    };
+                    obs.push(format!("resp {} {}", name, rs));
+                }
+            }
+            let cur = (n_req, obs.len());
+            if cur == last {
+                stable += 1;
+            } else {
+                stable = 0;
+                last = cur;
+            }
+        }
+    }
+    let reqs = p.node.sim.lock().unwrap().take_new_requests();
+    let mut out: Vec<String> = reqs
+        .iter()
+        .filter(|r| r.method != Method::Getinfo)
+        .map(|r| format!("req {} {}", r.label, normalise_stamps(&r.params.to_string())))
+        .collect();
+    out.extend(obs);
+    let _ = resp_string;
+    Ok(out)
+}
+
+/// Apply a node-internal event given by its engine-W label. Ok(false) = not applicable yet.
+fn apply_node_event(s: &mut Sim, label: &str, cfg: &crate::engine_w::WCfg) -> Result<bool, String> {
+    use crate::sim::{PartStatus, PayOutcome};
+    if let Some(c) = label.strip_prefix("PaySpawnPart(").and_then(|x| x.strip_suffix(')')) {
+        for i in 0..s.pays.len() {
+            if s.pays[i].running && s.cmd_label(i) == c {
+                s.spawn_part(i);
+                return Ok(true);
+            }
+        }
+        return Ok(false);
+    }
+    if let Some(rest) = label.strip_prefix("PayEnd(").and_then(|x| x.strip_suffix(')')) {
+        let (c, o) = rest.rsplit_once(',').ok_or("bad PayEnd label")?;
+        for i in 0..s.pays.len() {
+            if s.pays[i].running && s.cmd_label(i) == c {
+                let outcome = s.allowed_outcomes(i).into_iter().find(|x| x.label() == o).unwrap_or(PayOutcome::RpcError(210));
+                let _ = s.end_pay(i, &outcome);
+                return Ok(true);
+            }
+        }
+        return Ok(false);
+    }
+    if let Some(rest) = label.strip_prefix("Part(").and_then(|x| x.strip_suffix(')')) {
+        let (part, st) = rest.rsplit_once(',').ok_or("bad Part label")?;
+        for i in 0..s.parts.len() {
+            let pl = format!("g{}.p{}@{}", s.parts[i].groupid, s.parts[i].partid, &s.parts[i].hash[..4]);
+            if pl == part && s.parts[i].status == PartStatus::Pending {
+                let status = if st == "Complete" { PartStatus::Complete } else { PartStatus::Failed(st.trim_start_matches("Fail").parse().unwrap_or(204)) };
+                s.resolve_part(i, status);
+                return Ok(true);
+            }
+        }
+        return Ok(false);
+    }
+    let _ = cfg;
+    Err(format!("unknown node event {}", label))
 }
